@@ -78,5 +78,19 @@ CHECKS["C06"] = {
     "technique": "stateless model checking over operation histories with exhaustive throw-point (fault) enumeration and a lifetime-registry oracle",
 }
 
+CHECKS["C05"] = {
+    "engine": "E2-history-explorer",
+    "category": "fault_enumeration",
+    "text": "BFS over operation histories of two and three xtl::variant objects (4 alternatives mixing a trivially copyable, a nothrow-movable tracked, a tracked type whose copy, move and assignment can throw, and a larger "
+            "tracked type; and a 6-alternative variant with duplicate types), each state rebuilt by replay on a fresh world, deduplicated by (index, value, moved-from), run to FIXPOINT. In every reachable state every "
+            "operation instance runs once unfaulted (measuring the K constructor/assignment invocations that can throw) and once per k=1..K with the k-th throwing. Fault-free results are compared with std::variant in "
+            "lock-step; faulted results with the statement's rule; an address-keyed lifetime registry plus ASan/LSan decide 'constructed once, never used dead, destroyed once'; every new state is interrogated through "
+            "index/valueless/holds_alternative/get/get_if/xget, all relational operators on all ordered pairs and visit over 1-3 variants.",
+    "design_ref": "DESIGN.md section 3, C05",
+    "note": "Trusted: harness payload types/registry, libstdc++ std::variant, hand-coded [variant.relops]. Bounds: 2-3 variants, values {1,2}, the stated alternative sets. The table-based visitation dispatcher is dead code "
+            "under every supported configuration (MPARK_VARIANT_SWITCH_VISIT) and cannot be executed.",
+    "technique": "stateless model checking over operation histories with exhaustive throw-point (fault) enumeration, std::variant as lock-step reference and a lifetime-registry oracle",
+}
+
 NOT_YET = "check not built yet in this round; design in DESIGN.md section 3"
 NOT_APPLICABLE = {}
